@@ -14,12 +14,13 @@ RULE = ("EntryPoints.tla: every entry point returns Ok or Err, results are a fun
         "is called twice, 300 calls apart (pass A / pass B), interleaved with fixed probe inputs and a long edit sequence on one "
         "push Ruleset; panics are caught and logged, process death (stack overflow, abort) and calls over the time budget are "
         "logged by the supervisor, which restarts the worker at the next position. Trace_C17 validates the whole log as one "
-        "behaviour. Inputs: valid seeds of 50 entry points (identifiers, URIs, header values, 10 event enums, Raw, canonical "
-        "JSON, redaction, push conditions / rulesets / patterns, signatures and keys, HTML, 15 endpoint requests, 14 endpoint "
-        "responses, event authorization) and their mutations: every truncation, deletion, duplication, transposition, special "
-        "characters, boundary segment lengths (0..258, 300, 1000, 65535, 65536, 70000), invalid UTF-8 where the API takes "
-        "bytes, JSON key deletion / duplication / renaming / type swap, nesting depth 100..200 (JSON) and 99..21800 (HTML), "
-        "stacked mutations. Non-trivial = every input that is not an unmodified seed; distinct = distinct (entry point, arguments).")
+        "behaviour. Inputs: valid seeds of 56 entry points (identifiers, URIs, header values, 10 event enums, Raw, canonical "
+        "JSON, redaction, push conditions / rulesets / patterns / member counts, signatures and keys, HTML and message sanitising, "
+        "join rules, 15 endpoint requests, 20 endpoint responses incl. multipart media, event authorization) and their mutations: "
+        "truncations, deletion, duplication, transposition, special characters, line deletion / duplication / swapping, boundary "
+        "segment lengths (0..258, 300, 1000, 65535, 65536, 70000), runs of 12000 wildcards / escapes, invalid UTF-8 where the API "
+        "takes bytes, JSON key deletion / duplication / renaming / type swap, nesting depth 100..200 (JSON), 99..21800 (HTML) and "
+        "50..3000 (bundled replacements), deliberately mis-nested HTML, stacked mutations. Non-trivial = every input that is not an unmodified seed; distinct = distinct (entry point, arguments).")
 
 W = 300
 K_HTML = "entrypoint/abort/%s/html-nesting-depth-%d"
